@@ -4,6 +4,7 @@ import Deb822Verif.Lemmas.RelEditBuilt
 import Deb822Verif.Lemmas.RelEditHist
 import Deb822Verif.Lemmas.RelEditHandles
 import Deb822Verif.Lemmas.RelEditOracle
+import Deb822Verif.Lemmas.RelEditSpecs
 import Deb822Verif.Props.C10
 /-!
 # C11 — editing relationship fields keeps them well-formed and matches a list model
@@ -430,6 +431,12 @@ theorem C11_reread_history (rs rs' : List (List Lossy.Relation)) (os : List LOp)
     exact C10_strict (canon rs') (canon_wf rs' h2) (canon_noSubstvar rs')
   exact ⟨_, hs, habs, hacc⟩
 
+/-- the converse of `C11_reread_history`, one call: when the call is undefined on the value (an entry
+    or alternative index out of range), the API call panics on the tree (an `unwrap` of `get_entry` /
+    `get_relation`); `insert` and `push` are never undefined -/
+theorem C11_undefined_panics (rs : List (List Lossy.Relation)) (o : LOp) (h : o.apply rs = none) (f : Field)
+    (hf : f.kids = (built rs).children) : (stepI f o).isOk = false := stepI_panics rs o h f hf
+
 /-! ### relation nodes with the following blank inside
 
 For `a:any | b` the parser puts the blank after `a:any` INSIDE the RELATION node (relations.rs:190
@@ -605,6 +612,80 @@ theorem C11_history_refines (f f' : Field) (os : List IOp) (hs : Shaped f.kids) 
 theorem C11_history_step (f f' : Field) (M : LModel) (o : IOp) (H : HRel f M) (ho : o.ok)
     (h : istep f o = .ok f') : HRel f' (mstep M o) := hrel_step f f' M o H ho h
 
+/-! ### re-reading after a setter on ANY well-formed field
+
+`relAtSegs a.segs i j` (Lemmas/RelEditZip.lean) is the `j`-th alternative of the `i`-th entry of the
+field `a` of the grammar, with the gap that follows it and what follows that gap. The tree `a.tree`
+splits around the RELATION node of that alternative (`segs_zip`), whatever the layout — folded lines,
+odd spacing, the following whitespace inside the node or outside. Every setter maps that node to the
+node of a well-formed relation (`NodeSpec`, Lemmas/RelEditSpecs.lean): the same gaps where a part is
+replaced or removed, ` ` before a new part; when a list is appended to a node that ends in the
+following whitespace (`a:any  <x>| b`), that whitespace becomes the gap before the new list and the gap
+after the relation becomes empty. So the edited tree prints a well-formed field, and by C10 that text
+parses without error to the list-model result. -/
+
+/-- the edited field re-reads: no error, the list model of the result is the setter's list operation
+    on the list model before, and the printed text is a well-formed field -/
+def Rereads (a : FieldA) (allow : Bool) (f : Field) (i j p q : Nat) (g : RNode → RNode) (G : RelRec → RelRec) : Prop :=
+  (readRelaxed (f.relEdit p q g).root.text allow).2 = []
+  ∧ abs (readRelaxed (f.relEdit p q g).root.text allow).1 = S.modRel (abs f.root) i j G
+  ∧ ∃ a' : FieldA, a'.WF ∧ a'.hasSubstvar = a.hasSubstvar ∧ (f.relEdit p q g).root.text = a'.str
+
+theorem rereads_of_spec (a : FieldA) (hwf : a.WF) (allow : Bool) (ha : allow = true ∨ a.hasSubstvar = false)
+    (i j : Nat) (rj : RelA) (gj : Gap) (flj : Follow) (h : relAtSegs a.segs i j = some (rj, gj, flj))
+    (f : Field) (hf : f.kids = a.tree.children) (p q : Nat) (hA : Addr f i j p q)
+    (g : RNode → RNode) (G : RelRec → RelRec) (hs : ∃ r' g', NodeSpec g G rj gj flj r' g') :
+    Rereads a allow f i j p q g G := by
+  obtain ⟨r', g', hspec⟩ := hs
+  obtain ⟨p', q', hp', hq', hwf', htext, herr, habs⟩ := reread_setter a hwf allow ha i j rj gj flj h g G r' g' hspec f hf
+  have e1 : p' = p := Option.some.inj (hp'.symm.trans hA.1)
+  subst e1
+  have e2 : q' = q := Option.some.inj (hq'.symm.trans hA.2)
+  subst e2
+  exact ⟨herr, habs, _, hwf', setSegs_substvar a.segs i j r' g', htext⟩
+
+/-- the alternative found in the grammar is the one `get_entry(i)` / `get_relation(j)` find in the tree -/
+theorem C11_relAt_addr (a : FieldA) (i j : Nat) (rj : RelA) (gj : Gap) (flj : Follow)
+    (h : relAtSegs a.segs i j = some (rj, gj, flj)) (f : Field) (hf : f.kids = a.tree.children) :
+    ∃ p q e, Addr f i j p q ∧ f.kids[p]? = some e ∧ e.children[q]? = some (rj.node (tailOf rj gj flj)) := by
+  obtain ⟨pre, pre', post', post, L, R, hk, hc, hc', _, _⟩ := segs_zip a.segs i j rj gj flj h
+  have hkids : f.kids = pre ++ Node.node .ENTRY (pre' ++ rj.node (tailOf rj gj flj) :: post') :: post := by
+    rw [hf]; exact hk
+  have hek := entryKids_split f pre _ post hkids
+  refine ⟨pre.length, pre'.length, Node.node .ENTRY (pre' ++ rj.node (tailOf rj gj flj) :: post'), ⟨?_, ?_⟩, ?_, ?_⟩
+  · rw [hkids, ← hc]; exact nthPos_split pre _ post rfl
+  · rw [hek, ← hc']; exact nthPos_split pre' _ post' rfl
+  · rw [hkids]; simp
+  · show (pre' ++ rj.node (tailOf rj gj flj) :: post')[pre'.length]? = _
+    simp
+
+/-- `C11_reread` without its condition, for the relation setters on ANY well-formed field: the edited
+    tree prints a well-formed field and re-reads, without error, to the list-model result -/
+theorem C11_reread_setters_wf (a : FieldA) (hwf : a.WF) (allow : Bool) (ha : allow = true ∨ a.hasSubstvar = false)
+    (i j : Nat) (rj : RelA) (gj : Gap) (flj : Follow) (h : relAtSegs a.segs i j = some (rj, gj, flj))
+    (f : Field) (hf : f.kids = a.tree.children) (p q : Nat) (hA : Addr f i j p q) :
+    (∀ aq, isIdent aq = true →
+      Rereads a allow f i j p q (setArchqual · aq) (fun x => { x with archqual := some aq }))
+    ∧ (∀ c v, validVersion v = true →
+      Rereads a allow f i j p q (setVersion · (some (c, v))) (fun x => { x with version := .ok (some (c, v)) }))
+    ∧ Rereads a allow f i j p q (setVersion · none) (fun x => { x with version := .ok none })
+    ∧ Rereads a allow f i j p q (fun x => (dropConstraint x).1) (fun x => { x with version := .ok none })
+    ∧ Rereads a allow f i j p q (setArchitectures · []) (fun x => { x with architectures := none })
+    ∧ (∀ x xs, (∀ y ∈ x :: xs, validArch y = true) →
+      Rereads a allow f i j p q (setArchitectures · (x :: xs)) (fun r => { r with architectures := some (x :: xs) }))
+    ∧ (∀ g, (∀ y ∈ g, isIdent (profName y) = true) →
+      Rereads a allow f i j p q (addProfile · g) (fun r => { r with profiles := r.profiles ++ [g] })) := by
+  have hok : ∀ s ∈ a.segs, s.ok = true := by simpa [FieldA.WF, FieldA.ok, List.all_eq_true] using hwf
+  obtain ⟨hr, hg⟩ := relAt_ok a.segs i j rj gj flj h hok
+  have key := rereads_of_spec a hwf allow ha i j rj gj flj h f hf p q hA
+  refine ⟨fun aq haq => key _ _ ⟨_, _, spec_setArchqual rj gj flj aq hr hg haq⟩,
+    fun c v hv => ?_, key _ _ ⟨_, _, spec_setVersion_none rj gj flj hr hg⟩,
+    key _ _ ⟨_, _, spec_dropConstraint rj gj flj hr hg⟩, key _ _ ⟨_, _, spec_setArchs_nil rj gj flj hr hg⟩,
+    fun x xs hv => key _ _ (spec_setArchs_cons rj gj flj x xs hr hg hv),
+    fun g hv => key _ _ (spec_addProfile rj gj flj g hr hg hv)⟩
+  obtain ⟨r', hs⟩ := spec_setVersion_some rj gj flj c v hr hg hv
+  exact key _ _ ⟨r', gj, hs⟩
+
 /-! ### F-C11-8 (fixed): `Entry::replace` with an operand that carries whitespace -/
 
 /-- `"n ".parse::<Relation>()`: the RELATION node is `IDENT "n", WHITESPACE " "` -/
@@ -719,5 +800,13 @@ example : ∀ o ∈ hOps, o.ok := by
 example : (irun hF hOps).map (·.root.text) = .ok "n, c | n".toList
     ∧ (mrun ⟨abs hF.root, shapeOf hF⟩ hOps).tags = [some (none, [none]), some (some 4, [some 5, none])] := by
   decide +kernel
+
+
+/-- `C11_reread_setters_wf` applies: the alternatives of `a (>= 1) [x] | b, ${v}, c` (`exA`) -/
+example : relAtSegs exA.segs 0 1 = some (⟨"b".toList, none, none, none, []⟩, [], .comma)
+    ∧ relAtSegs exA.segs 1 0 = some (⟨"c".toList, none, none, none, []⟩, [], .eof)
+    ∧ relAtSegs exA.segs 2 0 = none := by decide +kernel
+example : ∃ p q, Addr exF 1 0 p q := ⟨6, 0, by unfold Addr; decide +kernel⟩
+example : (LOp.setArchqual 5 0 "any".toList).apply exRs = none := by decide +kernel
 
 end Deb822Verif.Props.C11
